@@ -325,3 +325,119 @@ func init() {
 		return Result{Lean: sb.String(), Summary: summary}, nil
 	})
 }
+
+// StoreScope (C16): how every datastore function scopes its data by store.
+//   - memory.go: every index into the per-store maps of MemoryBackend (tuples, changes, authorizationModels, assertions,
+//     stores), as (method, map, index expression);
+//   - sqlcommon.go / sqlite.go: for every function that builds a query on a table, the table and whether the function
+//     names the `store` column.
+func init() {
+	register("StoreScope", func(repo string) (Result, error) {
+		fset, f, err := parseFile(repo, "pkg/storage/memory/memory.go")
+		if err != nil {
+			return Result{}, err
+		}
+		maps := map[string]bool{"s.tuples": true, "s.changes": true, "s.authorizationModels": true, "s.assertions": true, "s.stores": true}
+		var mem []string
+		for _, d := range f.Decls {
+			fd, ok := d.(*ast.FuncDecl)
+			if !ok || fd.Body == nil || fd.Recv == nil {
+				continue
+			}
+			ast.Inspect(fd.Body, func(n ast.Node) bool {
+				switch x := n.(type) {
+				case *ast.IndexExpr:
+					if m := src(fset, x.X); maps[m] {
+						mem = append(mem, "("+leanStr(fd.Name.Name)+", "+leanStr(m)+", "+leanStr(src(fset, x.Index))+")")
+					}
+				case *ast.CallExpr:
+					if id, ok := x.Fun.(*ast.Ident); ok && id.Name == "delete" && len(x.Args) == 2 {
+						if m := src(fset, x.Args[0]); maps[m] {
+							mem = append(mem, "("+leanStr(fd.Name.Name)+", "+leanStr("delete "+m)+", "+leanStr(src(fset, x.Args[1]))+")")
+						}
+					}
+				case *ast.RangeStmt:
+					if m := src(fset, x.X); maps[m] {
+						mem = append(mem, "("+leanStr(fd.Name.Name)+", "+leanStr("range "+m)+", "+leanStr("")+")")
+					}
+				}
+				return true
+			})
+		}
+		if len(mem) == 0 {
+			return Result{}, fmt.Errorf("memory.go: no per-store map accesses found")
+		}
+		var sql []string
+		for _, rel := range []string{"pkg/storage/sqlcommon/sqlcommon.go", "pkg/storage/sqlite/sqlite.go"} {
+			fs2, f2, err := parseFile(repo, rel)
+			if err != nil {
+				return Result{}, err
+			}
+			for _, d := range f2.Decls {
+				fd, ok := d.(*ast.FuncDecl)
+				if !ok || fd.Body == nil {
+					continue
+				}
+				tables := map[string]bool{}
+				ast.Inspect(fd.Body, func(n ast.Node) bool {
+					ce, ok := n.(*ast.CallExpr)
+					if !ok {
+						return true
+					}
+					se, ok := ce.Fun.(*ast.SelectorExpr)
+					if !ok || len(ce.Args) == 0 {
+						return true
+					}
+					switch se.Sel.Name {
+					case "From", "Insert", "Update", "Delete", "Into":
+						if bl, ok := ce.Args[0].(*ast.BasicLit); ok && bl.Kind == token.STRING {
+							if t, err := strconv.Unquote(bl.Value); err == nil {
+								tables[strings.Fields(t)[0]] = true
+							}
+						}
+					}
+					return true
+				})
+				if len(tables) == 0 {
+					continue
+				}
+				body := src(fs2, fd.Body)
+				hasStore := strings.Contains(body, `"store"`) || strings.Contains(body, `"store":`) || strings.Contains(body, "store = ?") || strings.Contains(body, `"store",`)
+				var ts []string
+				for t := range tables {
+					ts = append(ts, t)
+				}
+				sortStrings(ts)
+				name := fd.Name.Name
+				if fd.Recv != nil {
+					name = "Datastore." + name
+				}
+				sql = append(sql, fmt.Sprintf("(%s, %s, %v)", leanStr(rel[strings.LastIndex(rel, "/")+1:]+":"+name), leanStr(strings.Join(ts, "+")), hasStore))
+			}
+		}
+		var sb strings.Builder
+		sb.WriteString(genHeader)
+		sb.WriteString("namespace OpenFGAVerif.Gen.StoreScope\n\n")
+		sb.WriteString("/-- every access of MemoryBackend to one of its per-store maps: `<method> <map> <index expression>` -/\n")
+		sb.WriteString("def memoryAccesses : List (String × String × String) := [" + strings.Join(mem, ", ") + "]\n\n")
+		sb.WriteString("/-- every SQL function that names a table: the tables and whether it names the `store` column -/\n")
+		sb.WriteString("def sqlFunctions : List (String × String × Bool) := [" + strings.Join(sql, ", ") + "]\n\n")
+		for _, nm := range []string{"WriteAssertions", "ReadAssertions", "DeleteStore", "GetStore"} {
+			sk, err := valSkeletonOf(repo, "pkg/storage/memory/memory.go", "MemoryBackend", nm)
+			if err != nil {
+				return Result{}, err
+			}
+			fmt.Fprintf(&sb, "/-- statement skeleton of memory `%s` -/\ndef memory_%s : List String := %s\n\n", nm, nm, leanStrList(sk))
+		}
+		sb.WriteString("end OpenFGAVerif.Gen.StoreScope\n")
+		return Result{Lean: sb.String(), Summary: map[string]interface{}{"memoryAccesses": len(mem), "sqlFunctions": len(sql)}}, nil
+	})
+}
+
+func sortStrings(xs []string) {
+	for i := 1; i < len(xs); i++ {
+		for j := i; j > 0 && xs[j] < xs[j-1]; j-- {
+			xs[j], xs[j-1] = xs[j-1], xs[j]
+		}
+	}
+}
